@@ -4,6 +4,8 @@ Helper lemmas over `Rat` for the adaptive DCC and the gate keeper (C19).  Uses s
 import Mathlib.Tactic.Linarith
 import Mathlib.Tactic.NormNum
 import Mathlib.Algebra.Order.Field.Rat
+import Mathlib.Tactic.Ring
+import Mathlib.Tactic.FieldSimp
 import FlexModel.Dcc.Adaptive
 import FlexModel.Dcc.Gate
 import FlexModel.Dcc.Spec
@@ -59,6 +61,94 @@ theorem aUpdate_cases (p : Params) (s : AState) (l lp : Rat) (g gp : Option Rat)
   · by_cases hlp : outsideUnit lp = true
     · exact Or.inr (aUpdate_err p s l lp g gp (Or.inr hlp))
     · exact Or.inl (aUpdate_ok p s l lp g gp (by simpa using hl) (by simpa using hlp))
+
+/-! ### clause 5.4 as relations (Spec.Clause54): the model satisfies them and they determine the result -/
+
+def Params.toP54 (p : Params) : P54 := ⟨p.alpha, p.beta, p.cbrTarget, p.deltaMax, p.deltaMin, p.deltaUpMax, p.deltaDownMax⟩
+
+theorem step2_min (P : P54) (its' : Rat) :
+    Step2 P its' (if P.target - its' > 0 then min (P.beta * (P.target - its')) P.up else max (P.beta * (P.target - its')) P.down) := by
+  constructor
+  · intro h
+    rw [if_pos h]
+    refine ⟨min_le_left _ _, min_le_right _ _, ?_⟩
+    rcases min_choice (P.beta * (P.target - its')) P.up with h | h <;> simp [h]
+  · intro h
+    rw [if_neg (not_lt.mpr h)]
+    refine ⟨le_max_left _ _, le_max_right _ _, ?_⟩
+    rcases max_choice (P.beta * (P.target - its')) P.down with h | h <;> simp [h]
+
+theorem step2_unique (P : P54) (its' a b : Rat) (ha : Step2 P its' a) (hb : Step2 P its' b) : a = b := by
+  by_cases h : 0 < P.target - its'
+  · obtain ⟨a1, a2, a3⟩ := ha.1 h
+    obtain ⟨b1, b2, b3⟩ := hb.1 h
+    rcases a3 with a3 | a3 <;> rcases b3 with b3 | b3 <;> linarith
+  · have h' := not_lt.mp h
+    obtain ⟨a1, a2, a3⟩ := ha.2 h'
+    obtain ⟨b1, b2, b3⟩ := hb.2 h'
+    rcases a3 with a3 | a3 <;> rcases b3 with b3 | b3 <;> linarith
+
+theorem step4_unique (P : P54) (d a b : Rat) (ha : Step4 P d a) (hb : Step4 P d b) : a = b := by
+  by_cases h : P.dmax < d
+  · rw [ha.1 h, hb.1 h]
+  · rw [ha.2 (not_lt.mp h), hb.2 (not_lt.mp h)]
+
+theorem step5_unique (P : P54) (d a b : Rat) (ha : Step5 P d a) (hb : Step5 P d b) : a = b := by
+  by_cases h : d < P.dmin
+  · rw [ha.1 h, hb.1 h]
+  · rw [ha.2 (not_lt.mp h), hb.2 (not_lt.mp h)]
+
+theorem clause54_functional (P : P54) (its delta c cp a b a' b' : Rat)
+    (h : Clause54 P its delta c cp a b) (h' : Clause54 P its delta c cp a' b') : a = a' ∧ b = b' := by
+  obtain ⟨o, d3, d4, s1, s2, s3, s4, s5⟩ := h
+  obtain ⟨o', d3', d4', s1', s2', s3', s4', s5'⟩ := h'
+  have e1 : a = a' := by unfold Step1 at s1 s1'; linarith
+  subst e1
+  have e2 : o = o' := step2_unique P a o o' s2 s2'
+  subst e2
+  have e3 : d3 = d3' := by unfold Step3 at s3 s3'; linarith
+  subst e3
+  have e4 : d4 = d4' := step4_unique P d3 d4 d4' s4 s4'
+  subst e4
+  exact ⟨rfl, step5_unique P d4 b b' s5 s5'⟩
+
+def mIts (s : AState) (c cp : Rat) : Rat := (1/2 : Rat) * s.cbrItsS + (1/2 : Rat) * ((c + cp) / 2)
+def mOff (p : Params) (its : Rat) : Rat :=
+  if p.cbrTarget - its > 0 then min (p.beta * (p.cbrTarget - its)) p.deltaUpMax else max (p.beta * (p.cbrTarget - its)) p.deltaDownMax
+def mD3 (p : Params) (s : AState) (off : Rat) : Rat := (1 - p.alpha) * s.delta + off
+def mD4 (p : Params) (d : Rat) : Rat := if d > p.deltaMax then p.deltaMax else d
+def mD5 (p : Params) (d : Rat) : Rat := if d < p.deltaMin then p.deltaMin else d
+def modelNext (p : Params) (s : AState) (c cp : Rat) : AState :=
+  ⟨mIts s c cp, mD5 p (mD4 p (mD3 p s (mOff p (mIts s c cp))))⟩
+
+theorem aUpdate_val (p : Params) (s s' : AState) (l lp : Rat) (g gp : Option Rat)
+    (h : aUpdate p s l lp g gp = .ok s') :
+    s' = modelNext p s (effective l lp g gp).1 (effective l lp g gp).2 := by
+  unfold aUpdate at h
+  split at h
+  · cases h
+  split at h
+  · cases h
+  simp only [Except.ok.injEq] at h
+  subst h
+  cases g <;> cases gp <;> rfl
+
+theorem modelNext_sat (p : Params) (s : AState) (c cp : Rat) :
+    Clause54 (Params.toP54 p) s.cbrItsS s.delta c cp (modelNext p s c cp).cbrItsS (modelNext p s c cp).delta := by
+  refine ⟨mOff p (mIts s c cp), mD3 p s (mOff p (mIts s c cp)), mD4 p (mD3 p s (mOff p (mIts s c cp))), ?_,
+    step2_min (Params.toP54 p) (mIts s c cp), ?_, ?_, ?_⟩
+  · simp only [Step1, modelNext, mIts]; ring
+  · simp only [Step3, Params.toP54, mD3]; ring
+  · simp only [Step4, Params.toP54, mD4]
+    exact ⟨fun hh => if_pos hh, fun hh => if_neg (not_lt.mpr hh)⟩
+  · simp only [Step5, Params.toP54, modelNext, mD5]
+    exact ⟨fun hh => if_pos hh, fun hh => if_neg (not_lt.mpr hh)⟩
+
+
+theorem mIts_unit (s : AState) (c cp : Rat) (hs : 0 ≤ s.cbrItsS ∧ s.cbrItsS ≤ 1) (hc : 0 ≤ c ∧ c ≤ 1)
+    (hcp : 0 ≤ cp ∧ cp ≤ 1) : 0 ≤ mIts s c cp ∧ mIts s c cp ≤ 1 := by
+  unfold mIts
+  constructor <;> linarith [hs.1, hs.2, hc.1, hc.2, hcp.1, hcp.2]
 
 /-! ## Gate keeper -/
 
@@ -219,5 +309,74 @@ theorem tpg_last (c : GCfg) (hc : c.minI ≤ c.maxI) : ∀ (ops : List GOp) (s :
       · exact absurd h0 h.1
       · simp only [gRun, List.foldl, gStep, admissions, e] at ih' ⊢
         simpa using ih'
+
+/-! ### B.1 / B.2 as relations (Spec.B1, Spec.B2) -/
+
+theorem limited_clamp (mn mx x : Rat) (h : mn ≤ mx) : Limited mn mx x (min (max x mn) mx) := by
+  refine ⟨fun h1 => ?_, fun h1 h2 => ?_, fun h1 => ?_⟩
+  · rw [max_eq_right h1, min_eq_left h]
+  · rw [max_eq_left h1, min_eq_left h2]
+  · rw [min_eq_right (le_trans h1 (le_max_left _ _))]
+
+theorem limited_unique (mn mx x a b : Rat) (ha : Limited mn mx x a) (hb : Limited mn mx x b) : a = b := by
+  by_cases h1 : x ≤ mn
+  · rw [ha.1 h1, hb.1 h1]
+  · by_cases h2 : mx ≤ x
+    · rw [ha.2.2 h2, hb.2.2 h2]
+    · rw [ha.2.1 (le_of_lt (not_le.mp h1)) (le_of_lt (not_le.mp h2)), hb.2.1 (le_of_lt (not_le.mp h1)) (le_of_lt (not_le.mp h2))]
+
+theorem limited_bounds (mn mx x iv : Rat) (h : mn ≤ mx) (hl : Limited mn mx x iv) : mn ≤ iv ∧ iv ≤ mx := by
+  by_cases h1 : x ≤ mn
+  · rw [hl.1 h1]; exact ⟨le_refl _, h⟩
+  · by_cases h2 : mx ≤ x
+    · rw [hl.2.2 h2]; exact ⟨h, le_refl _⟩
+    · rw [hl.2.1 (le_of_lt (not_le.mp h1)) (le_of_lt (not_le.mp h2))]
+      exact ⟨le_of_lt (not_le.mp h1), le_of_lt (not_le.mp h2)⟩
+
+theorem B1_unique (mn mx tpg ton delta a b : Rat) (hd : delta ≠ 0)
+    (ha : B1 mn mx tpg ton delta a) (hb : B1 mn mx tpg ton delta b) : a = b := by
+  obtain ⟨x, iv, hx, hl, e⟩ := ha
+  obtain ⟨x', iv', hx', hl', e'⟩ := hb
+  have : x = x' := mul_right_cancel₀ hd (hx.trans hx'.symm)
+  subst this
+  rw [e, e', limited_unique mn mx x iv iv' hl hl']
+
+theorem B2_unique (mn mx tpg tgo dOld dNew a b : Rat) (hd : dNew ≠ 0)
+    (ha : B2 mn mx tpg tgo dOld dNew a) (hb : B2 mn mx tpg tgo dOld dNew b) : a = b := by
+  obtain ⟨x, iv, hx, hl, e⟩ := ha
+  obtain ⟨x', iv', hx', hl', e'⟩ := hb
+  have : x = x' := mul_right_cancel₀ hd (hx.trans hx'.symm)
+  subst this
+  rw [e, e', limited_unique mn mx x iv iv' hl hl']
+
+/-- what B.1/B.2 imply by themselves: the closed interval is between the two bounds -/
+theorem B1_interval (mn mx tpg ton delta tgo : Rat) (h : mn ≤ mx) (hb : B1 mn mx tpg ton delta tgo) :
+    tpg + mn ≤ tgo ∧ tgo ≤ tpg + mx := by
+  obtain ⟨x, iv, _, hl, e⟩ := hb
+  have := limited_bounds mn mx x iv h hl
+  constructor <;> linarith [this.1, this.2]
+
+theorem admit_sat_B1 (c : GCfg) (hc : c.minI ≤ c.maxI) (s : GState) (t ton : Rat)
+    (h : (admitPkt c s t ton).2 = .admitted) :
+    ∃ tgo, (admitPkt c s t ton).1 = { s with tpg := some t, tgo := some tgo } ∧ B1 c.minI c.maxI t ton s.delta tgo := by
+  rcases admit_cases c s t ton with ⟨_, e⟩ | ⟨_, _, e⟩ | ⟨_, _, _, e⟩ | ⟨h1, h2, hd, e⟩
+  · rw [e] at h; cases h
+  · rw [e] at h; cases h
+  · rw [e] at h; cases h
+  · refine ⟨_, by rw [e], ton / s.delta, clampI c (ton / s.delta), div_mul_cancel₀ ton hd, limited_clamp _ _ _ hc, rfl⟩
+
+theorem update_sat_B2 (c : GCfg) (hc : c.minI ≤ c.maxI) (s : GState) (t d a b : Rat) (hd : 0 < d)
+    (ha : s.tpg = some a) (hb : s.tgo = some b) (ho : isOpen c s t = false) :
+    ∃ tgo, (updDelta c s t d).1 = { s with delta := d, tgo := some tgo } ∧ B2 c.minI c.maxI a b s.delta d tgo := by
+  rcases upd_cases c s t d with ⟨h, _⟩ | ⟨_, a', b', ha', hb', _, e⟩ | ⟨_, hh, _⟩
+  · linarith
+  · rw [ha] at ha'; rw [hb] at hb'; cases ha'; cases hb'
+    refine ⟨_, by rw [e], s.delta / d * (b - a), clampI c (s.delta / d * (b - a)), ?_, limited_clamp _ _ _ hc, rfl⟩
+    have : d ≠ 0 := ne_of_gt hd
+    field_simp
+  · rcases hh with h | h | h
+    · rw [ha] at h; cases h
+    · rw [hb] at h; cases h
+    · rw [ho] at h; cases h
 
 end FlexModel.Dcc
